@@ -651,6 +651,7 @@ func checkC12(c *Ctx) {
 			c.Report("c12/line-device", int64(im), "", map[string]interface{}{"im": im}, []string{fmt.Sprintf("IM %d; CPU.IO is a device that also implements z80.INT and z80.NMI and holds its request lines until ReturnNMI/ReturnINT: %s; error %v, HALT=%v, PC=%04X, CheckNMI called %d times, CheckINT %d, ReturnNMI %d, ReturnINT %d", im, what, err, cpu.HALT, cpu.PC, dev.nCheckNMI, dev.nCheckINT, dev.nRetNMI, dev.nRetINT)})
 		}
 	}
+	runMachineScenario(c, "c12/machine")
 	if !c.Quick() {
 		n += c12Soak(c)
 	}
